@@ -124,17 +124,22 @@ def loop_byte(b, facts, eb):
     return None, None, None
 
 
-def analyse_fmt(b, facts):
-    """returns (sites, problems): sites = list of (bb, line, frozenset of byte values reaching the write)"""
+def analyse_fmt(b, facts, byte=None):
+    """returns (sites, frame, problems): sites = list of (bb, line, frozenset of byte values reaching the write).
+    byte=None: the byte is the variable of an explicit loop over the slice; otherwise `b` is the body run once per byte
+    (the closure of `iter().try_for_each(..)`, helpers inlined) and `byte` is the expression of the byte in it"""
     eb = ExprBuilder(b, facts, inline=False)
     cfg = cfg_of(b)
-    bl, bbb, bexpr = loop_byte(b, facts, eb)
-    if bl is None:
-        return None, None, ["loop over the bytes not found"]
+    if byte is None:
+        bl, bbb, bexpr = loop_byte(b, facts, eb)
+        if bl is None:
+            return None, None, ["loop over the bytes not found"]
+    else:
+        bl, bbb, bexpr = -1, 0, byte
 
     def isb(e):
         e = canon(e)
-        return e == canon(bexpr) or e == ("deref", canon(bexpr))
+        return e == canon(bexpr) or e == ("deref", canon(bexpr)) or ("deref", e) == canon(bexpr)
     state = {bbb: ALL}
     work = [bbb]
     # the loop head is the block that calls next(): do not propagate through it again
@@ -188,6 +193,46 @@ def analyse_fmt(b, facts):
     return sites, frame, []
 
 
+def internal_iteration(facts, b0):
+    """(closure view, byte expression, block of the call) for `self.0.iter()[.copied()].try_for_each(closure)` / for_each"""
+    from .inline import inlined
+    eb = ExprBuilder(b0, facts, inline=False)
+    hits = []
+    for bi, t in b0.calls():
+        fn = callee(t)
+        if fn is None or fn["name"] not in ("try_for_each", "for_each") or b0.blocks[bi]["cleanup"] or len(t["args"]) != 2:
+            continue
+        loc = (bi, len(b0.blocks[bi]["stmts"]))
+        it = canon(eb.operand(t["args"][0], loc))
+        cl = eb.operand(t["args"][1], loc)
+        while isinstance(cl, tuple) and cl and cl[0] in ("ref", "deref"):
+            cl = cl[1]
+        if not (isinstance(cl, tuple) and cl and cl[0] == "closure" and cl[1] is not None):
+            continue
+        # the iterator is iter() over the wrapped slice, possibly .copied()/.cloned(); nothing that skips or reorders
+        x = it
+        by_value = False
+        while isinstance(x, tuple) and x and x[0] in ("ref", "deref"):
+            x = x[1]
+        if isinstance(x, tuple) and x and x[0] == "call" and x[1].rsplit("::", 1)[-1] in ("copied", "cloned"):
+            by_value = True
+            x = x[2][0]
+        if not (isinstance(x, tuple) and x and x[0] == "call" and x[1].rsplit("::", 1)[-1] in ("iter", "into_iter")):
+            continue
+        src = x[2][0]
+        while isinstance(src, tuple) and src and src[0] in ("ref", "deref"):
+            src = src[1]
+        if not (isinstance(src, tuple) and src and src[0] == "field" and str(src[2]) in ("0",) and src[1] in (("param", 1), ("deref", ("param", 1)))):
+            continue
+        cb = facts.by_did.get(cl[1])
+        if cb is None:
+            continue
+        view = inlined(facts, cb)
+        bexpr = ("param", 2) if by_value or cb.locals[2]["ty"] == "u8" else ("deref", ("param", 2))
+        hits.append((view, bexpr, bi))
+    return hits[0] if len(hits) == 1 else None
+
+
 def run(facts):
     res = Result("D2", "Debug: the byte-value sets reaching each write partition 0..=255 and each template decodes (byte-string-literal grammar) to the "
                        "guarded byte, framed by b\" and \"; hex: one {:02x}/{:02X} per byte in order; the six fmt impls pass self.as_ref()")
@@ -212,6 +257,18 @@ def run(facts):
                 if not p2:
                     b, sites, frame, probs = ib, s2, f2, []
                     break
+        anchors = None
+        if probs:
+            # internal iteration: `self.0.iter()[.copied()].try_for_each(|b| ..)` runs the closure once per byte, in order,
+            # and stops at the first error - the closure (helpers inlined) is the loop body
+            ii = internal_iteration(facts, b0)
+            if ii is not None:
+                cview, bexpr, cbi = ii
+                s2, f2, p2 = analyse_fmt(cview, facts, byte=bexpr)
+                if not p2 and not f2:
+                    b, sites, probs = cview, s2, []
+                    frame = [(bi, t["span"]["line"]) for bi, t in b0.calls() if callee(t) and callee(t)["name"] == "write_fmt"]
+                    anchors = [cbi]
         if probs:
             res.bad(key, b0.loc(), "; ".join(probs))
             continue
@@ -259,9 +316,10 @@ def run(facts):
             if lits != ['b"', '"']:
                 probs.append("literal is not framed by b\" ... \": %r" % lits)
             else:
-                cfg = cfg_of(b)
+                cfg = cfg_of(b0 if anchors else b)
                 first, last = fl[0][0], fl[1][0]
-                if not all(cfg.dominates(first, bi) for bi, _, _ in sites) or not cfg.dominates(first, last):
+                if not all(cfg.dominates(first, bi) for bi in (anchors or [x[0] for x in sites])) or not cfg.dominates(first, last) \
+                        or (anchors and not all(cfg.dominates(a, last) for a in anchors)):
                     probs.append("opening b\" does not dominate the per-byte writes")
         else:
             if frame:
